@@ -7,11 +7,21 @@ package token
 // configured, the previous secret. tokSecret[tok] = the HMAC key the library verified tok with (trusted library contract:
 // ParseFromRequest returns err == nil only for a token whose signature verifies under the key function's key and whose time claims are valid).
 //@ ghost var tokSecret map[any]string
+// doParseToken hands the request to the library with a key function that offers exactly `secret` (closure 0) and the parser
+// of newParser, and returns the library's verdict as it is - no second opinion, no filtering (ghost: the token the library
+// accepted was verified with the key that key function returns)
 //@ func (tp *TokenParser) doParseToken
-//@   trusted
+//@   property C18
 //@   results tok, err
+//@   ghost at after ParseFromRequest#0: lt = ret0
+//@   ghost at after ParseFromRequest#0: le = ret1
+//@   ghost at after ParseFromRequest#0: tokSecret[ret0] = secret
+//@   ghost at after newParser#0: np = ret
+//@   call ParseFromRequest#0: assert arg_req == r
+//@   call WithParser#0: assert arg_parser == np
+//@   ensures tok == lt && err == le
 //@   ensures implies(err == nil, tok != nil && tokSecret[tok] == secret)
-//@   modifies nothing
+//@   modifies tokSecret, calls
 //@   allocates
 //@ func (tp *TokenParser) doParseToken closure 0
 //@   property C18
@@ -29,7 +39,7 @@ package token
 //@   results tok, err
 //@   ensures implies(err == nil, tok != nil && (tokSecret[tok] == secret || (len(prevSecret) > 0 && tokSecret[tok] == prevSecret)))
 //@   ensures implies(err != nil, tok == nil)
-//@   modifies nothing
+//@   modifies tokSecret, calls
 //@   allocates
 
 // the claims the handler sees are the signed ones exactly: numbers are decoded as json.Number (no float64 rounding of
@@ -37,4 +47,6 @@ package token
 //@ func newParser
 //@   property C18
 //@   ghost at after WithJSONNumber#0: jn = ret
-//@   call NewParser#0: assert arg0 == jn
+//@   call NewParser#0: assert argc == 1 && arg0 == jn
+//@   modifies nothing
+//@   allocates
